@@ -151,4 +151,10 @@ func runC02(p *Plan) {
 			p.Out.Count("value:" + vc.prof)
 		}
 	}
+	// C02 speaks about the built-in inspectors and Assign/AssignBuf as well: the same records their own
+	// properties use (typed-nil pointers, nil subtrees, foreign arguments included), judged for panics only.
+	runC16(p)
+	runC17(p)
+	runC18(p)
+	runC19(p)
 }
